@@ -16,7 +16,9 @@ def refine_site(site, o):
         # unchanged tree: only with a tiny arena cache (<= 16 KiB) under --optimise Performance
         cache = int(opts[opts.index("--arena-cache-size") + 1]) if "--arena-cache-size" in opts else 393216
         return site + (":arena-cache<=16384" if cache <= 16384 else ":arena-cache>16384")
-    return site
+    import c13_keys
+
+    return c13_keys.refine(site, o)      # helper arithmetic (fp_math / scaling / numeric_util): keyed with the calling lowering
 
 
 def main():
@@ -24,6 +26,9 @@ def main():
     ck.lean_stage(["VelaVerif.Props.C13"])
     n = 12000 if ck.thorough else 1200
     profiles = ["weird", "mixed", "cpu", "pattern", "lut", "pattern", "weights", "cascade", "weird", "pattern", "elementwise", "pattern"]
+    # quantisation / option extremes on every operator that computes with the quantisation parameters (extremes_gen.py) and
+    # operators kept off the NPU of every kind a rewrite pass reads, --force-symmetric-int-weights cases (reject_gen.py)
+    profiles += ["act_extremes", "act_extremes", "rejected"]
     outs = pipe_common.run_corpus(ck, n, profiles=profiles, want={"more_opts": True}, corpus_first=False)
     reqs = []
     for o in outs:
